@@ -35,6 +35,7 @@ PICK = [
     ('C13', lambda r, d, c: r == 'C13.a' and ('isfinite' in d or 'NaN' in d or 'sentinel' in d), 'C17.f'),
     ('C14', lambda r, d, c: r == 'C14.b' and ('missing' in d or 'NaN' in d), 'C17.f'),
     ('C14', lambda r, d, c: r == 'C14.d' and 'mask' in d, 'C17.f'),
+    ('C14', lambda r, d, c: r == 'C14.c' and 'missing' in d, 'C17.f'),
     ('C14', lambda r, d, c: r == 'C14.a' and 'finite' in d, 'C17.f'),
     ('C15', lambda r, d, c: r == 'C15.b' and 'mask' in d, 'C17.f'),
     ('C16', lambda r, d, c: r == 'C16.a' and ('bitmap' in d or 'bit position' in d), 'C17.f'),
